@@ -94,10 +94,24 @@ def small_dag_specs(maxn: int, canonical: bool = True) -> list[JobSpec]:
 
 
 def _explore_one(arg):
-    cfg_json, max_exec, deadline, prune = arg
+    cfg_json, max_exec, deadline, prune, ntraces = arg
     cfg = config_from_json(cfg_json)
-    res = explore(cfg, max_exec=max_exec, deadline=deadline, prune=prune)
+    res = explore(cfg, max_exec=max_exec, deadline=deadline, prune=prune, keep_traces=ntraces if not cfg.gpu_workers else 0)
     res["cfg"] = cfg_json
+    # conformance: replay maximal model traces (one per distinct command sequence, capped) on the real executor stack
+    conf = {"replayed": 0, "failures": [], "out_of_connection_order": 0}
+    if res["traces"]:
+        from vf import conformance
+
+        for ch in res["traces"]:
+            ex = replay_one(cfg, ch)
+            r = conformance.replay(cfg, ex.sim.log)
+            conf["replayed"] += 1
+            if not r["ok"]:
+                conf["failures"].append((ch, r["why"]))
+            else:
+                conf["out_of_connection_order"] += r.get("out_of_connection_order", 0)
+    res["conformance"] = conf
     return res
 
 
@@ -118,12 +132,14 @@ def run_family(ctx: common.Ctx, prop: str, configs: list[Config], max_exec: int,
     configs = common.rotate(configs, ctx.seed)
     configs = sorted(configs, key=weight, reverse=True)  # big ones first: better pool balance
     deadline = time.time() + budget_s if budget_s else 0.0
-    args = [(c.describe(), max_exec, deadline, True) for c in configs]
+    ntraces = ctx.pick(3, 40)
+    args = [(c.describe(), max_exec, deadline, True, ntraces) for c in configs]
     results = common.pmap(_explore_one, args)
     tot = {"executions": 0, "states": 0, "transitions": 0, "terminal": 0, "pruned": 0, "aborted": 0}
     capped = []
     multi_outcome = []
     shapes = 0
+    conf_n = conf_ooo = 0
     for cfg, res in zip(configs, results):
         st = res["stats"]
         for k in tot:
@@ -134,6 +150,14 @@ def run_family(ctx: common.Ctx, prop: str, configs: list[Config], max_exec: int,
             multi_outcome.append((res["label"], res["outcome_set"]))
         shapes += st["cmd_shapes"]
         ctx.add_violations(to_violations(cfg, res, prop))
+        conf_n += res["conformance"]["replayed"]
+        conf_ooo += res["conformance"]["out_of_connection_order"]
+        for ch, why in res["conformance"]["failures"]:
+            kind = ("event of the model never produced by the implementation" if "was not produced" in why else
+                    "controller calls differ between model and implementation" if "calls differ" in why else
+                    "implementation produced events the model did not predict" if "did not predict" in why else
+                    "final outputs differ or the real run raised" if ("outputs differ" in why or "raised" in why) else "real controller keeps waiting")
+            ctx.add_violation(common.Violation({"monitor": "model_vs_implementation", "cause": kind}, f"[{cfg.label()}] {why}", {"config": cfg.describe(), "choices": ch, "conformance": True}))
         if res["sample"] is not None:
             ctx.sample(res["sample"], cap=3)
     ctx.coverage.update(
@@ -143,7 +167,8 @@ def run_family(ctx: common.Ctx, prop: str, configs: list[Config], max_exec: int,
         configs_with_more_than_one_outcome=len(multi_outcome), capped_configs=capped,
         exhaustive=not capped,
     )
-    ctx.coverage.setdefault("traces_validated_against_impl", 0)
+    ctx.coverage["traces_validated_against_impl"] = conf_n
+    ctx.coverage["conformance_releases_out_of_connection_order"] = conf_ooo
     if prop == "C01" and multi_outcome:
         # outcome must not depend on the schedule: report as a violation of C01
         for label, outs in multi_outcome[:3]:
@@ -155,4 +180,16 @@ def run_family(ctx: common.Ctx, prop: str, configs: list[Config], max_exec: int,
 def replay(ctx: common.Ctx, data: dict, prop: str) -> list[common.Violation]:
     cfg = config_from_json(data["config"])
     ex = replay_one(cfg, list(data["choices"]))
+    if data.get("conformance"):
+        from vf import conformance
+
+        r = conformance.replay(cfg, ex.sim.log)
+        if r["ok"]:
+            return []
+        why = r["why"]
+        kind = ("event of the model never produced by the implementation" if "was not produced" in why else
+                "controller calls differ between model and implementation" if "calls differ" in why else
+                "implementation produced events the model did not predict" if "did not predict" in why else
+                "final outputs differ or the real run raised" if ("outputs differ" in why or "raised" in why) else "real controller keeps waiting")
+        return [common.Violation({"monitor": "model_vs_implementation", "cause": kind}, why, data)]
     return [common.Violation(sig, msg, data) for (p, sig, msg) in ex.sim.violations if p == prop]
